@@ -51,6 +51,17 @@ func main() {
 			os.Exit(rc)
 		}
 		os.Exit(core.RunBatch(core.Options{ID: os.Args[2], Tier: *tier, Seed: *seed, Workers: *workers, VerifDir: verif, RunsOverride: *runs, NoShrink: *noshrink}))
+	case "hashes":
+		if len(os.Args) < 3 {
+			usage()
+		}
+		fs := flag.NewFlagSet("hashes", flag.ExitOnError)
+		tier := fs.String("tier", "quick", "")
+		seed := fs.Uint64("seed", 1, "")
+		runs := fs.Int("runs", 200, "")
+		workers := fs.Int("workers", 0, "")
+		fs.Parse(os.Args[3:])
+		os.Exit(core.Hashes(os.Args[2], *tier, *seed, *runs, *workers))
 	case "replay":
 		if len(os.Args) < 3 {
 			usage()
